@@ -15,11 +15,12 @@
     cancels a stage (C02_no_deadlock).
     A job reported successfully completed has executed each of its tasks exactly once (C02_successful_job_ran_each_task_once,
     from the verdict invariant of proofs/VerdictProps.v and C02_at_most_once).
+    The fuel of the model's cycle search is sufficient on every input (C02_cycle_search_never_out_of_fuel).
     NOT proved (decided by the monitor on every executed history instead): the liveness half of "can run to completion"
     beyond the no-dead-lock step. *)
 From stdpp Require Import list.
 From Coq Require Import ZArith.
-From PV Require Import Graph System Runner proofs.GraphProps proofs.BuildProps proofs.KahnProps proofs.ProgressProps proofs.SchedProps proofs.OnceProps proofs.StageProps proofs.VerdictProps proofs.SuccessPathProps.
+From PV Require Import Graph System Runner proofs.GraphProps proofs.BuildProps proofs.KahnProps proofs.ProgressProps proofs.SchedProps proofs.OnceProps proofs.StageProps proofs.VerdictProps proofs.SuccessPathProps proofs.DfsFuel.
 
 (** over every history: the number of times task [n] of job [id] began executing is at most one *)
 Theorem C02_at_most_once : ∀ s id n, reach s → (began (st_ghost s) id n ≤ 1)%nat.
@@ -129,6 +130,16 @@ Proof.
   split; [done|]. split; [done|]. apply C02_accepted_iff_acyclic; [done|done|]. vm_compute. done.
 Qed.
 
+(** for EVERY task list (duplicate names, unknown dependencies and cycles included): the fuel the graph builder gives
+    the cycle search is never used up — its answer is the answer with any larger fuel, so a refusal of the model always
+    is a visited stage met again (ErrCycleDetected), never exhaustion (proofs/DfsFuel.v) *)
+Theorem C02_cycle_search_never_out_of_fuel : ∀ ts k,
+  add_stages (S (S (length ts)) + k) [] ts = add_stages (S (S (length ts))) [] ts.
+Proof. exact build_graph_fuel_sufficient. Qed.
+Example C02_ex_fuel_cycle_with_unknown_dep :
+  add_stages (4 + 7) [] [(0%nat, td [1;9]%nat); (1%nat, td [0%nat])] = None ∧ add_stages 4 [] [(0%nat, td [1;9]%nat); (1%nat, td [0%nat])] = None.
+Proof. vm_compute. done. Qed.
+
 Print Assumptions C02_at_most_once.
 Print Assumptions C02_begins_after_dependencies.
 Print Assumptions C02_successful_job_ran_each_task_once.
@@ -143,3 +154,4 @@ Print Assumptions C02_success_path_progress.
 Print Assumptions C02_launch_only_when_deps_satisfied_partial.
 Print Assumptions C02_failed_dependency_blocks.
 Print Assumptions C02_cyclic_job_harmless.
+Print Assumptions C02_cycle_search_never_out_of_fuel.
